@@ -1216,6 +1216,8 @@ register(PropertySpec(
              "entity and set_of are one implementation: a type test on the kind of a descriptor covers every kind (same test or the arms of its chain), so a rule or query written with set_of takes the paths the same one written with entity takes"),
         Rule("REPLAY-FALSE-ASKED", _lazy("cacheidx", "rule_replay_false_asked"), 5,
              "(shared with C05) a sub-query object used in two places: a replay from a result cache hands on the false rows exactly when the evaluation it answers asked for them"),
+        Rule("OR-LEFT-TOTAL", _lazy("logic", "rule_or_left_total"), 1,
+             "(shared with C18; recorded finding) the else-if offers its right side only the bindings for which its left side yielded a row: a sub-query in value position on the left of | yields none for the values it rejects"),
     ],
     explanation="Decides the structural clauses of the three mechanisms the property is anchored in: (1) a quantifier node in "
                 "the middle of a tree is transparent for truth (same truth table as its conditions, request for false rows passed "
